@@ -93,6 +93,7 @@ type FnCtx struct {
 	subSeen  map[string]bool
 	localSubs map[string][]string
 	evalDepth int
+	curCall   *ssa.CallCommon
 	exitBound map[int]bool
 	ghostAt  map[string]*ssa.BasicBlock
 	uncontracted map[string]bool
